@@ -6,7 +6,7 @@ package redact
 // TestVerifReplayC07 replays the strings of a solver counterexample (REPLAY_HINTS {"x":..,"y":..}) and a
 // small neighbourhood against the real functions. TestVerifBoundedC07 is the BOUNDED stand-in for the
 // laws the solver does not decide: it enumerates every string over the alphabet the two operations can
-// distinguish up to a length bound (VERIF_TIER quick: 5, thorough: 7) and checks the laws of the
+// distinguish up to a length bound (VERIF_TIER quick: 6, thorough: 7) and checks the laws of the
 // property statement against reference implementations written from that statement.
 
 import (
@@ -18,7 +18,9 @@ import (
 	"testing"
 )
 
-var c07Alphabet = []string{"‹", "›", "×", "\n", "a", "\xe2", "\x80"}
+// the last three symbols are the bytes of the markers one by one: with them a string can contain a marker cut in
+// two by another marker ("\xe2‹\x80\xb9"), which deleting the inner one puts together
+var c07Alphabet = []string{"‹", "›", "×", "\n", "a", "\xe2", "\x80", "\xb9", "\xba"}
 
 func c07Fail(t *testing.T, call, out, why string) {
 	m, _ := json.Marshal(map[string]string{"property": "C07", "call": call, "output": fmt.Sprintf("%q", out), "why": why})
@@ -121,7 +123,10 @@ func c07Check(t *testing.T, s string) int {
 		esc != strings.ReplaceAll(strings.ReplaceAll(s, "‹", "?"), "›", "?") {
 		bad("EscapeMarkers("+q+")", esc, "not the input with each marker replaced by '?'")
 	}
-	if strip != c07RefStrip(s) {
+	// "removes exactly the delimiters and nothing else" is claimed for well-formed strings; where deleting the
+	// delimiters puts the bytes of a new marker together ("\xe2‹\x80\xb9x›") the two clauses cannot both hold
+	// and "leaves no marker character" (checked above) wins
+	if ref := c07RefStrip(s); c07WF(s) && !strings.Contains(ref, "‹") && !strings.Contains(ref, "›") && strip != ref {
 		bad("RedactableString("+q+").StripMarkers()", strip, "does not remove exactly the delimiters")
 	}
 	// well-formed strings
@@ -190,7 +195,7 @@ func TestVerifReplayC07(t *testing.T) {
 }
 
 func TestVerifBoundedC07(t *testing.T) {
-	n := 5
+	n := 6
 	if os.Getenv("VERIF_TIER") == "thorough" {
 		n = 7
 	}
@@ -205,6 +210,6 @@ func TestVerifBoundedC07(t *testing.T) {
 	})
 	m, _ := json.Marshal(map[string]interface{}{"property": "C07", "law": "Redact/StripMarkers/EscapeMarkers laws against reference implementations (idempotence, projection, variant agreement)",
 		"cases": cases, "nontrivial": wf, "nontrivial_rule": "well-formed strings (the projection laws apply to them)",
-		"bound": fmt.Sprintf("all strings of at most %d symbols over {start, end, cross, LF, 'a', 0xE2, 0x80}", n), "exhaustive": fails == 0})
+		"bound": fmt.Sprintf("all strings of at most %d symbols over {start, end, cross, LF, 'a', 0xE2, 0x80, 0xB9, 0xBA}", n), "exhaustive": fails == 0})
 	fmt.Printf("BOUNDED: %s\n", m)
 }
